@@ -27,7 +27,11 @@ package lexer
 
 //@ func CompareTwoLoc
 //@   sweep C01
+//@   props C06 C11
 //@   requires oneLoc != nil && twoLoc != nil
+//@   ensures[C06,C11,is-location-equality] result <==> (oneLoc.StartLine == twoLoc.StartLine && oneLoc.EndLine == twoLoc.EndLine
+//@        && oneLoc.StartColumn == twoLoc.StartColumn && oneLoc.EndColumn == twoLoc.EndColumn)
+//@   assigns nothing
 //@ end
 
 //@ func (*Location).IsInitialLoc
